@@ -7,7 +7,7 @@ use ec_linear::genome::bitstring::Bitstring;
 use ec_linear::recombinator::crossover::Crossover;
 use ec_linear::recombinator::two_point_xo::TwoPointXo;
 use ec_linear::recombinator::uniform_xo::UniformXo;
-use mcx::{explore, Alphabet, ChoiceRng, Env, Law, Ratio, Run};
+use mcx::{explore, explore_bounded, Alphabet, ChoiceRng, Env, Law, Ratio, Run};
 use serde_json::{json, Value};
 use std::collections::BTreeSet;
 
@@ -120,9 +120,17 @@ pub fn xo_case(two_point: bool, f: Flavour, l1: usize, l2: usize) -> (u64, u64, 
     let mut viols: Vec<(String, String)> = vec![];
     let mut segs: BTreeSet<(usize, usize)> = BTreeSet::new();
     let mut law: Law<Vec<u8>> = Law::new();
+    // is the grid adequate for the draws actually made?  (uniform: one 32-bit draw per gene, as rand's
+    // random::<bool>() makes; an implementation that consumes words differently -- say, one mask word for
+    // many genes -- reads bits the grid midpoints do not vary, so its law cannot be concluded from this
+    // alphabet; it is then judged by support only, here and on the long genomes)
+    let mut adequate = true;
     let st = explore(
         |env| recombine(two_point, f, l1, l2, env, alpha),
-        |_, w, o| {
+        |t, w, o| {
+            if !two_point && l1 == l2 && !(t.len() == l && t.iter().all(|c| c.kind == mcx::Kind::U32)) {
+                adequate = false;
+            }
             let mut bad = |key: &str, what: String| {
                 if viols.len() < 3 {
                     viols.push((format!("{name}/{key}"), format!("{label}: {what}")));
@@ -218,6 +226,31 @@ pub fn xo_case(two_point: bool, f: Flavour, l1: usize, l2: usize) -> (u64, u64, 
                     format!("{label}: segments {missing:?} never occur over all random streams"),
                 ));
             }
+        } else if !adequate {
+            // support only, on the alphabet that also contains the all-zero and all-ones words (they
+            // vary every bit of a word, whatever bits the implementation reads)
+            let mut seen = vec![[false; 2]; l];
+            explore_bounded(
+                |env| recombine(false, f, l1, l2, env, Alphabet::Ext(2)),
+                |_, o| {
+                    if let XoObs::Child(c) = o {
+                        for (i, p) in c.iter().enumerate().take(l) {
+                            if *p == 1 || *p == 2 {
+                                seen[i][*p as usize - 1] = true;
+                            }
+                        }
+                    }
+                },
+                2,
+                1_000_000,
+            );
+            for (i, sp) in seen.iter().enumerate() {
+                for p in [1usize, 2] {
+                    if !sp[p - 1] {
+                        viols.push((format!("{name}/support"), format!("{label}: position {i} never comes from parent {p} (draws are not one 32-bit word per gene: the law is not concluded from the grid, support is judged on the grid plus the extreme words)")));
+                    }
+                }
+            }
         } else {
             let each = Ratio::new(1, 1u128 << l);
             if law.mass.len() != 1usize << l || law.mass.values().any(|p| *p != each) {
@@ -226,6 +259,88 @@ pub fn xo_case(two_point: bool, f: Flavour, l1: usize, l2: usize) -> (u64, u64, 
         }
     }
     (st.leaves + ext_leaves, st.choice_points, viols, law.mass.len())
+}
+
+/// Long genomes (around the 64- and 128-gene marks, where a word-sized mask or buffer would run out).
+/// Two-point: both cut points enumerated completely on Grid(l+1); uniform: deviation-bounded exploration
+/// over the grid plus the extreme words.  Per-leaf oracle as above; over all leaves every position must be
+/// seen coming from either parent, and (two-point) every segment must occur.
+pub fn long_case(two_point: bool, f: Flavour, l: usize, max_dev: usize) -> (u64, u64, Vec<(String, String)>) {
+    let name = if two_point { "two_point_xo" } else { "uniform_xo" };
+    let label = format!("{name} {f:?} length {l}");
+    let mut viols: Vec<(String, String)> = vec![];
+    let mut from1 = vec![false; l];
+    let mut from2 = vec![false; l];
+    let mut segs: BTreeSet<(usize, usize)> = BTreeSet::new();
+    let mut judge = |o: XoObs, viols: &mut Vec<(String, String)>| {
+        let what = match &o {
+            XoObs::Panic(p) => Some(("panic", format!("panicked: {p}"))),
+            XoObs::ErrLength => Some(("spurious-length-error", "equal-length parents rejected".to_string())),
+            XoObs::ErrOther(e) => Some(("other-error", format!("unexpected error {e}"))),
+            XoObs::Child(c) => {
+                if c.len() != l {
+                    Some(("child-length", format!("child has length {}", c.len())))
+                } else if c.iter().any(|p| *p == 0) {
+                    Some(("foreign-gene", "the child has a gene that neither parent has at that position".to_string()))
+                } else {
+                    for (i, p) in c.iter().enumerate() {
+                        if *p == 1 {
+                            from1[i] = true;
+                        } else {
+                            from2[i] = true;
+                        }
+                    }
+                    if two_point {
+                        match single_run(c) {
+                            Some(s) => {
+                                segs.insert(s);
+                                None
+                            }
+                            None => Some(("not-contiguous", "genes from the second parent do not form one segment".to_string())),
+                        }
+                    } else {
+                        None
+                    }
+                }
+            }
+        };
+        if let Some((k, w)) = what {
+            if viols.len() < 3 {
+                viols.push((format!("{name}/{k}"), format!("{label}: {w}")));
+            }
+        }
+    };
+    let st = if two_point {
+        explore(|env| recombine(true, f, l, l, env, Alphabet::Grid(l as u32 + 1)), |_, _, o| judge(o, &mut viols), 5_000_000)
+    } else {
+        explore_bounded(|env| recombine(false, f, l, l, env, Alphabet::Ext(2)), |_, o| judge(o, &mut viols), max_dev, 5_000_000)
+    };
+    if st.capped {
+        viols.push(("machinery/cap".into(), format!("{label}: capped")));
+    }
+    if viols.is_empty() {
+        let never1: Vec<usize> = (0..l).filter(|i| !from1[*i]).collect();
+        let never2: Vec<usize> = (0..l).filter(|i| !from2[*i]).collect();
+        if !never1.is_empty() || !never2.is_empty() {
+            viols.push((
+                format!("{name}/long-support"),
+                format!("{label}: over all explored streams positions {never1:?} never come from the first parent and positions {never2:?} never from the second"),
+            ));
+        } else if two_point {
+            let missing: Vec<(usize, usize)> = (0..=l).flat_map(|a| (a..=l).map(move |b| (a, b))).filter(|(a, b)| !segs.contains(&if a == b { (0, 0) } else { (*a, *b) })).collect();
+            if !missing.is_empty() {
+                viols.push((format!("{name}/segments-unreachable"), format!("{label}: {} segments never occur, e.g. {:?}", missing.len(), &missing[..missing.len().min(4)])));
+            }
+        }
+    }
+    (st.leaves, st.choice_points, viols)
+}
+pub fn long_lengths(quick: bool) -> Vec<usize> {
+    if quick {
+        vec![63, 64, 65, 129]
+    } else {
+        vec![31, 32, 33, 63, 64, 65, 66, 100, 127, 128, 129, 130, 257]
+    }
 }
 
 /// E3: the exchange primitives of Bitstring
@@ -320,13 +435,41 @@ pub fn run(run: &mut Run) {
             }
         }
     }
+    // long genomes
+    let quick = run.quick();
+    let mut long_cases = vec![];
+    for tp in [true, false] {
+        for f in FLAVOURS {
+            for l in long_lengths(quick) {
+                long_cases.push((tp, f, l));
+            }
+        }
+    }
+    let long_results = mcx::par_map(long_cases.len(), |i| {
+        let (tp, f, l) = long_cases[i];
+        long_case(tp, f, l, if quick { 1 } else { 2 })
+    });
+    for (i, (leaves, cps, viols)) in long_results.into_iter().enumerate() {
+        run.evaluations += leaves;
+        run.transitions += cps;
+        let (tp, f, l) = long_cases[i];
+        for (k, w) in viols {
+            if k.starts_with("machinery/") {
+                run.machinery(w);
+            } else {
+                run.violation(k, w, json!({"check":"C10","scenario":"long","two_point":tp,"flavour":format!("{f:?}"),"l":l}));
+            }
+        }
+    }
+    run.bound("long_lengths", json!(long_lengths(quick)));
+    run.bound("long_uniform_deviation_bound", json!(if quick { 1 } else { 2 }));
     let p = primitives(run);
     run.evaluations += p;
     run.transitions += p;
     run.states = cases.len() as u64 + p;
     run.traces_validated = run.evaluations;
     run.distinct_nontrivial = nontrivial;
-    run.rule = "TwoPointXo and UniformXo in 6 flavours ([Vec;2], (Vec,Vec), [Bitstring;2], (Bitstring,Bitstring), through Recombine, behind &) x all length pairs 0..L x all grid word sequences on tagged parents (and, lengths <= 4, all sequences over the grid plus the extreme words 0 and all-ones, per-leaf oracle only); per leaf: error iff lengths differ, child gene i from a parent's position i, one contiguous segment (two-point); over all leaves: every segment [a,b) reachable, uniform mask law exactly 2^-l; plus crossover_gene / crossover_segment for all indices / ranges up to length+2 on all length pairs 0..4. non-trivial = scenarios with more than one distinct child".into();
+    run.rule = "TwoPointXo and UniformXo in 6 flavours ([Vec;2], (Vec,Vec), [Bitstring;2], (Bitstring,Bitstring), through Recombine, behind &) x all length pairs 0..L x all grid word sequences on tagged parents (and, lengths <= 4, all sequences over the grid plus the extreme words 0 and all-ones, per-leaf oracle only); per leaf: error iff lengths differ, child gene i from a parent's position i, one contiguous segment (two-point); over all leaves: every segment [a,b) reachable, uniform mask law exactly 2^-l; plus long genomes (around 64 and 128 genes): two-point with both cut points enumerated, uniform under every stream with at most 1 (thorough 2) non-default words, per-leaf oracle + every position seen from either parent + every segment; plus crossover_gene / crossover_segment for all indices / ranges up to length+2 on all length pairs 0..4. non-trivial = scenarios with more than one distinct child".into();
     run.bound("max_length", json!(max_l));
     run.bound("alphabet", json!("Grid(l*(l+1)) for two-point, Grid(2) for uniform"));
     run.assumptions = vec!["Grid(l(l+1)) is exact for cut points drawn from 0..l as well as from 0..=l".into()];
@@ -338,6 +481,16 @@ pub fn replay(v: &Value) -> bool {
     let l1 = v["l1"].as_u64().unwrap_or(0) as usize;
     let l2 = v["l2"].as_u64().unwrap_or(0) as usize;
     match v["scenario"].as_str() {
+        Some("long") => {
+            let tp = v["two_point"].as_bool().unwrap_or(true);
+            let f = FLAVOURS.iter().copied().find(|f| Some(format!("{f:?}").as_str()) == v["flavour"].as_str()).unwrap_or(Flavour::VecArr);
+            let (leaves, _, viols) = long_case(tp, f, l1.max(v["l"].as_u64().unwrap_or(0) as usize), 2);
+            println!("long genomes, {} {f:?}: {leaves} executions", if tp { "two-point" } else { "uniform" });
+            for (k, w) in &viols {
+                println!("MISMATCH [{k}]: {w}");
+            }
+            viols.is_empty()
+        }
         Some("xo") => {
             let tp = v["two_point"].as_bool().unwrap_or(true);
             let f = FLAVOURS.iter().copied().find(|f| Some(format!("{f:?}").as_str()) == v["flavour"].as_str()).unwrap_or(Flavour::VecArr);
